@@ -213,33 +213,50 @@ DevNarrow ==
            /\ \E k \in MatchSet(i) : views[k].filter # "none"
 
 (* ---- behaviour export -------------------------------------------------------------- *)
+EmitAll == phase = "done" => PrintT(<<"BEH", ToJson(hist)>>)
+\* vacuity tags: which situations the continuation "instrument i after `views`" exhibits; the check
+\* demands that every tag occurs among the replayed cases
+TagNames == {"TwoMatch", "FirstOnly", "SecondOnly", "NoneOfTwo", "Drop", "ObsFilter", "KeyView", "KeyNul",
+             "EmptyFilter", "VersionMiss", "SchemaMiss", "MeterNameMiss", "TypeMiss", "UnitMiss", "PrefixHit",
+             "SuffixHit", "ExactMiss", "Rename", "Default"}
+Relax(v, f) == CASE f = "version" -> [v EXCEPT !.msel.version = ""]
+                 [] f = "schema"  -> [v EXCEPT !.msel.schema = ""]
+                 [] f = "mname"   -> [v EXCEPT !.msel.name = ""]
+                 [] f = "unit"    -> [v EXCEPT !.unit = ""]
+                 [] f = "pat"     -> [v EXCEPT !.pat = P("all", <<>>)]
+OnlyMiss(i, f) == \E k \in 1..Len(views) : ~Matches(views[k], i) /\ Matches(Relax(views[k], f), i)
+TagCond(w, i) ==
+  LET ms == MatchSet(i) IN
+  CASE w = "TwoMatch"      -> Cardinality(ms) = 2 /\ \A k \in ms : views[k].agg # "drop"
+    [] w = "FirstOnly"     -> Len(views) = 2 /\ ms = {1}
+    [] w = "SecondOnly"    -> Len(views) = 2 /\ ms = {2}
+    [] w = "NoneOfTwo"     -> Len(views) = 2 /\ ms = {}
+    [] w = "Default"       -> views # <<>> /\ ms = {}
+    [] w = "Drop"          -> \E k \in ms : views[k].agg = "drop"
+    [] w = "ObsFilter"     -> IsObs(i.type) /\ i.attrs # {} /\ \E k \in ms : views[k].filter = "k1"
+    [] w = "KeyView"       -> ~IsObs(i.type) /\ "k1v" \in i.attrs /\ \E k \in ms : views[k].filter = "k1"
+    [] w = "KeyNul"        -> ~IsObs(i.type) /\ "k1n" \in i.attrs /\ \E k \in ms : views[k].filter = "k1"
+    [] w = "EmptyFilter"   -> ~IsObs(i.type) /\ i.attrs # {} /\ \E k \in ms : views[k].filter = "empty"
+    [] w = "VersionMiss"   -> OnlyMiss(i, "version")
+    [] w = "SchemaMiss"    -> OnlyMiss(i, "schema")
+    [] w = "MeterNameMiss" -> OnlyMiss(i, "mname")
+    [] w = "UnitMiss"      -> OnlyMiss(i, "unit")
+    [] w = "ExactMiss"     -> \E k \in 1..Len(views) : views[k].pat.k = "exact" /\ ~Matches(views[k], i)
+                                /\ Matches(Relax(views[k], "pat"), i)
+    [] w = "TypeMiss"      -> \E k \in 1..Len(views) : views[k].type # i.type /\ Matches([views[k] EXCEPT !.type = i.type], i)
+    [] w = "PrefixHit"     -> \E k \in ms : views[k].pat.k = "prefix"
+    [] w = "SuffixHit"     -> \E k \in ms : views[k].pat.k = "suffix"
+    [] w = "Rename"        -> \E k \in ms : views[k].name # "" /\ views[k].desc # "" /\ views[k].agg \notin {"default", "drop"}
+CaseTags(i) == {w \in TagNames : TagCond(w, i)}
+
 \* Sweep export: for a registered view list, ALL continuations "CreateInst(i); Collect" at once (a
 \* set of behaviours sharing the prefix `views`).  Streams(i, views) does not depend on the other
 \* instruments, so the replayer may realise several continuations in one provider as long as
 \* (meter, name) stays unique.
-SweepCases == {[i |-> [i EXCEPT !.meter = i.meter.id], exp |-> Streams(i, views, {}), alts |-> Alts(i, views)] :
+SweepCases == {[i |-> [i EXCEPT !.meter = i.meter.id], exp |-> Streams(i, views, {}), alts |-> Alts(i, views),
+                 tags |-> CaseTags(i)] :
                  i \in {i \in InstDomain : \A k \in 1..Len(views) : ~Open(views[k].msel, i.meter)}}
 EmitSweep == phase = "views" => PrintT(<<"BEHS", ToJson([views |-> views, cases |-> SweepCases])>>)
-EmitAll == phase = "done" => PrintT(<<"BEH", ToJson(hist)>>)
-Wit(c)  == (phase = "done" /\ c) => (PrintT(<<"BEH", ToJson(hist)>>) /\ FALSE)
-NMatch(j) == Cardinality(MatchSet(insts[j]))
-WitTwoMatch    == Wit(\E j \in 1..Len(insts) : NMatch(j) = 2 /\ \A k \in 1..Len(views) : views[k].agg # "drop")
-WitFirstOnly   == Wit(Len(views) = 2 /\ \E j \in 1..Len(insts) : MatchSet(insts[j]) = {1})
-WitSecondOnly  == Wit(Len(views) = 2 /\ \E j \in 1..Len(insts) : MatchSet(insts[j]) = {2})
-WitNoneOfTwo   == Wit(Len(views) = 2 /\ \E j \in 1..Len(insts) : MatchSet(insts[j]) = {})
-WitDrop        == Wit(\E j \in 1..Len(insts) : \E k \in MatchSet(insts[j]) : views[k].agg = "drop")
-WitObsFilter   == Wit(\E j \in 1..Len(insts) : IsObs(insts[j].type) /\ insts[j].attrs # {}
-                        /\ \E k \in MatchSet(insts[j]) : views[k].filter = "k1")
-WitKeyView     == Wit(\E j \in 1..Len(insts) : ~IsObs(insts[j].type) /\ "k1v" \in insts[j].attrs
-                        /\ \E k \in MatchSet(insts[j]) : views[k].filter = "k1")
-WitKeyNul      == Wit(\E j \in 1..Len(insts) : ~IsObs(insts[j].type) /\ "k1n" \in insts[j].attrs
-                        /\ \E k \in MatchSet(insts[j]) : views[k].filter = "k1")
-WitVersionMiss == Wit(\E j \in 1..Len(insts) : \E k \in 1..Len(views) :
-                        /\ views[k].msel.version \notin {"", insts[j].meter.version}
-                        /\ Matches([views[k] EXCEPT !.msel.version = ""], insts[j]))
-WitOtherMeter  == Wit(Len(insts) >= 2 /\ \E j1, j2 \in 1..Len(insts) : insts[j1].meter # insts[j2].meter
-                        /\ MatchSet(insts[j1]) # {} /\ MatchSet(insts[j2]) = {} /\ insts[j1].name = insts[j2].name
-                        /\ insts[j1].type = insts[j2].type /\ insts[j1].unit = insts[j2].unit)
 
 (* ---- named domains for the configs (cfg: CONSTANT X <- Name) --------------------------- *)
 TypesAll   == Types
@@ -247,10 +264,14 @@ Types3     == {"Counter", "Histogram", "ObsGauge"}
 Types2     == {"Counter", "ObsGauge"}
 PatsAll    == AllPats
 Pats3      == {P("exact", <<"x", "a">>), P("prefix", <<"x">>), P("all", <<>>)}
+PatAllOnly == {P("all", <<>>)}
 UnitSelAll == AllUnits
 UnitSel2   == {"", "ms"}
+UnitSelAny == {""}
 MSelsAll   == AllMSels
 MSels4     == {MS("", "", ""), MS("m1", "1.0", "s1"), MS("m1", "", ""), MS("m2", "", "")}
+MSels2     == {MS("", "", ""), MS("m1", "1.0", "s1")}
+MetersAB   == {MeterA, MeterB}
 MSelAny    == {MS("", "", "")}
 ShapesAll  == AllShapes
 Shapes2    == {Sh("v", "d", "default", "none"), Sh("", "", "last", "k1")}
